@@ -526,6 +526,20 @@ def check_wiring(ctx, r):
                 "(`jaxtyping_disable`)")
     else:
         ctx.ok("C19.3", upd.qualname, "update('jaxtyping_disable', v) -> self.jaxtyping_disable = <switch parser>(v, ..)")
+    # the other keys that update() knows must leave the switch alone (`update('jaxtyping_remove_typechecker_stack', v)`
+    # storing into jaxtyping_disable would switch checking off as a side effect of an unrelated setting)
+    other_keys = sorted({c.comparators[0].value for c in ast.walk(upd.node)
+                         if isinstance(c, ast.Compare) and len(c.ops) == 1 and isinstance(c.ops[0], (ast.Eq, ast.NotEq)) and isinstance(c.comparators[0], ast.Constant)
+                         and isinstance(c.comparators[0].value, str) and c.comparators[0].value != "jaxtyping_disable"})
+    for k_ in other_keys:
+        for o in run_for(k_):
+            if any(ev.startswith("store:jaxtyping_disable:") for ev in o.events):
+                ctx.bad("C19.3", upd, o.end.ast if o.end.ast is not None else upd.node,
+                        f"config.update('{k_}', v) stores into jaxtyping_disable: an unrelated setting switches checking on/off",
+                        construct=f"update('{k_}') writes jaxtyping_disable")
+                break
+        else:
+            ctx.ok("C19.3", upd.qualname, f"update('{k_}', v) does not touch jaxtyping_disable")
     # __init__: update("jaxtyping_disable", os.environ.get("JAXTYPING_DISABLE", <default>))
     found = False
     for c in ast.walk(init.node):
